@@ -390,7 +390,7 @@ func vEssence(req proto.Message) (string, string) {
 		}
 		canon := vDet(inner)
 		root := vSszRoot(canon)
-		wins[string(root[:])] = win{tu: v.GetTypeUrl(), canon: hex.EncodeToString(canon)}
+		wins[string(root[:])] = win{tu: string(inner.ProtoReflect().Descriptor().FullName()), canon: hex.EncodeToString(canon)}
 	}
 	refs := map[string]bool{}
 	addRef := func(b []byte) {
@@ -646,7 +646,7 @@ func (w *vWorld) snapshot() string {
 			ids = append(ids, strconv.Itoa(id))
 			ch <- m
 		}
-		ents = append(ents, fmt.Sprintf("(%s, [%s])", vCoreDuty(d), strings.Join(ids, ";")))
+		ents = append(ents, fmt.Sprintf("(%s, [%s]%%N)", vCoreDuty(d), strings.Join(ids, ";")))
 	}
 	return "[" + strings.Join(ents, "; ") + "]"
 }
@@ -747,7 +747,7 @@ func (w *vWorld) drain(d core.Duty, k int) {
 		}
 	}
 	if w.keep {
-		w.trace.Labels = append(w.trace.Labels, fmt.Sprintf("LDr %s [%s]", vCoreDuty(d), strings.Join(ids, ";")))
+		w.trace.Labels = append(w.trace.Labels, fmt.Sprintf("LDr %s [%s]%%N", vCoreDuty(d), strings.Join(ids, ";")))
 	}
 }
 
